@@ -56,6 +56,7 @@ type Pop struct {
 	R     *Run
 	Peers []*core.Peer
 	K     int
+	Alias bool // neighbour lists repeat their nearest address under a second node id
 }
 
 func NewPop(r *Run) *Pop { return &Pop{R: r, K: 8} }
@@ -77,14 +78,25 @@ func (n *Pop) Closest(target [20]byte, k int) (nodes, nodes6 string) {
 	ps := append([]*core.Peer(nil), n.Peers...)
 	sort.SliceStable(ps, func(i, j int) bool { return XorCmp(ps[i].ID, ps[j].ID, target) < 0 })
 	c4, c6 := 0, 0
+	alias := func(p *core.Peer) string {
+		id := p.ID
+		id[19] ^= 0x55
+		return string(core.CompactNode(id, p.Addr))
+	}
 	for _, p := range ps {
 		if p.Addr.IP.To4() != nil {
 			if c4 < k {
 				nodes += string(core.CompactNode(p.ID, p.Addr))
+				if n.Alias && c4 == 0 {
+					nodes += alias(p)
+				}
 				c4++
 			}
 		} else if c6 < k {
 			nodes6 += string(core.CompactNode(p.ID, p.Addr))
+			if n.Alias && c6 == 0 {
+				nodes6 += alias(p)
+			}
 			c6++
 		}
 	}
